@@ -193,6 +193,8 @@ def plan(prop, tier):
         p["lemmas"] = LEMMAS[prop]
     if prop in ("C08", "C13"):
         p["lifecycle"] = True
+    if prop not in ("C14", "C17", "C20"):
+        p["drive"] = 40 if tier == "quick" else 600
     if prop in ("C01", "C03", "C04", "C07", "C09", "C11"):
         p["events18"] = 40 if tier == "quick" else 1200
     if prop in ("C02", "C07", "C08", "C10", "C12", "C18"):
